@@ -41,6 +41,7 @@ pub struct Arena {
 }
 
 const AL_LEN: usize = 256;
+const BIG_PKT: usize = 0x11000;
 const STORE_IMM: i32 = 0x8bad_f00du32 as i32;
 const STORE_REG: u64 = 0x1122_3344_5566_7788;
 
@@ -126,6 +127,12 @@ pub struct MemCase {
     /// precede the access by a 1-byte load through the same base register and offset (in the
     /// same basic block) - only generated when that byte is itself inside a region
     pub pre_narrow: bool,
+    /// precede a store-type access by a 1-byte immediate store of the byte already there (same
+    /// base register and offset): memory is unchanged by it
+    pub pre_store: Option<u8>,
+    /// add this to r10 after the address has been formed and before the access: only loadable under
+    /// a permissive verifier; the 512-byte stack region does not move with the register
+    pub r10_shift: i32,
 }
 
 fn opcode(acc: Acc, w: u8) -> u8 {
@@ -184,6 +191,9 @@ pub fn program(c: &MemCase, pkt_addr: u64) -> Option<Vec<I>> {
             if !set_base(&mut p, b, c.t, c.off as i64) {
                 return None;
             }
+            if c.r10_shift != 0 {
+                p.push(isa::add64i(10, c.r10_shift));
+            }
             if c.pre_narrow {
                 p.push(I::new(0x71, 9, b, c.off, 0));
             }
@@ -204,12 +214,21 @@ pub fn program(c: &MemCase, pkt_addr: u64) -> Option<Vec<I>> {
             if !set_base(&mut p, b, c.t, c.off as i64) {
                 return None;
             }
+            if c.r10_shift != 0 {
+                p.push(isa::add64i(10, c.r10_shift));
+            }
             if c.pre_narrow {
                 p.push(I::new(0x71, 9, b, c.off, 0));
+            }
+            if let Some(v) = c.pre_store {
+                p.push(I::new(0x72, b, 0, c.off, v as i32));
             }
             match c.acc {
                 Acc::St => p.push(I::new(opc, b, 0, c.off, STORE_IMM)),
                 _ => p.push(I::new(opc, b, vreg, c.off, 0)),
+            }
+            if c.r10_shift != 0 {
+                p.push(isa::add64i(10, -c.r10_shift));
             }
             match stack_reload {
                 Some(lo) => p.push(isa::ldxdw(0, 10, lo as i16)),
@@ -222,19 +241,40 @@ pub fn program(c: &MemCase, pkt_addr: u64) -> Option<Vec<I>> {
             if idx > i32::MAX as u64 {
                 return None;
             }
+            if c.pre_narrow {
+                p.push(I::new(0x30, 0, 0, 0, idx as i32));
+            }
             p.push(I::new(opc, 0, 0, 0, idx as i32));
         }
         Acc::LdInd => {
             let Target::Abs(ea) = c.t else { return None };
             // imm = off (as a small non-negative immediate), src = idx - imm
-            let imm = (c.off as i32).rem_euclid(4096);
             let idx = ea.wrapping_sub(pkt_addr);
+            let imm = if b == 7 && (5..=i32::MAX as u64).contains(&idx) { (idx - 5) as i32 } else { (c.off as i32).rem_euclid(4096) };
             p.extend(isa::lddw(b, idx.wrapping_sub(imm as u64)));
+            if c.pre_narrow {
+                p.push(I::new(0x50, 0, b, 0, imm));
+            }
             p.push(I::new(opc, 0, b, 0, imm));
         }
     }
     p.push(isa::EXIT);
     Some(p)
+}
+
+/// The byte the arena (after `init`) or the prepared stack holds at the first byte of the access.
+fn first_byte(c: &MemCase, a: &Arena) -> Option<u8> {
+    match c.t {
+        Target::Abs(ea) => expected_load(a, ea, 1).map(|v| v as u8),
+        Target::Stack(d) => {
+            if !(-512..0).contains(&d) {
+                return None;
+            }
+            // stdw lo, 0x01020304 (sign-extended, little endian)
+            let lo = d.div_euclid(8) * 8;
+            Some((0x01020304u64).to_le_bytes()[(d - lo) as usize])
+        }
+    }
 }
 
 fn expected_load(a: &Arena, ea: u64, w: usize) -> Option<u64> {
@@ -254,15 +294,17 @@ fn expected_load(a: &Arena, ea: u64, w: usize) -> Option<u64> {
 fn case_json(c: &MemCase, l: &Layout, eng: Eng, a: &Arena) -> Value {
     // addresses are described relative to their buffers so that the record is replayable
     let rel = |ea: u64| -> Value {
-        for (n, b) in [("packet", &a.pkt), ("mbuff", &a.mb), ("allowed", &a.al)] {
-            let d = ea.wrapping_sub(b.addr()) as i64;
-            if d.unsigned_abs() < 4096 {
-                return json!({"rel": n, "delta": d});
-            }
+        // relative to the nearest buffer (buffers are separate mappings; a large packet is 68 KiB)
+        let best = [("packet", &a.pkt), ("mbuff", &a.mb), ("allowed", &a.al)].into_iter()
+            .map(|(n, b)| (n, ea.wrapping_sub(b.addr()) as i64))
+            .filter(|(n, d)| d.unsigned_abs() < 4096 || (*n == "packet" && *d >= 0 && (*d as usize) < l.pkt_len + 4096))
+            .min_by_key(|(_, d)| d.unsigned_abs());
+        if let Some((n, d)) = best {
+            return json!({"rel": n, "delta": d});
         }
         json!({"abs": format!("{ea:#x}")})
     };
-    json!({"kind":"mem","eng":eng.name(),"acc":format!("{:?}", c.acc),"w":c.w,"off":c.off,"base":c.base,"pre_narrow":c.pre_narrow,
+    json!({"kind":"mem","eng":eng.name(),"acc":format!("{:?}", c.acc),"w":c.w,"off":c.off,"base":c.base,"pre_narrow":c.pre_narrow,"pre_store":c.pre_store,"r10_shift":c.r10_shift,
            "target": match c.t { Target::Abs(ea) => rel(ea), Target::Stack(d) => json!({"rel":"stack","delta":d}) },
            "layout": {"vm": vm::kind_name(l.kind), "pkt": l.pkt_len, "mb": l.mb_len, "allowed": l.allowed}})
 }
@@ -307,15 +349,47 @@ fn where_class(c: &MemCase, l: &Layout, a: &Arena) -> String {
     }
 }
 
-/// C02: one case on the interpreter.
+fn accept_all(_p: &[u8]) -> Result<(), std::io::Error> {
+    Ok(())
+}
+
+fn make_vm<'a>(kind: VmKind, bytes: &'a [u8], permissive: bool) -> Result<AnyVm<'a>, String> {
+    if !permissive {
+        return AnyVm::new(kind, Some(bytes)).map_err(|e| format!("load: {e}"));
+    }
+    let mut vm = AnyVm::new(kind, None).map_err(|e| format!("load: {e}"))?;
+    vm.set_verifier(accept_all).map_err(|e| format!("load: {e}"))?;
+    vm.set_program(bytes, (0, 0)).map_err(|e| format!("load: {e}"))?;
+    Ok(vm)
+}
+
+/// C02: one case on the interpreter. The registered ranges live in a HashSet whose iteration
+/// order is drawn per VM object and is not under the harness's control: with two or more ranges a
+/// case that touches them is run on 24 fresh VM objects (a lookup that depends on the order among
+/// k <= 4 candidate ranges escapes all 24 with probability < 4^-24... at most (3/4)^24 = 0.1%).
 pub fn c02_check(s: &mut Sink, c: &MemCase, l: &Layout, a: &Arena) {
+    let reps = if l.allowed.len() >= 2 && where_class(c, l, a) == "allowed" { 24 } else { 1 };
+    let v0 = s.n_violations();
+    for rep in 0..reps {
+        c02_check_once(s, c, l, a, rep == 0);
+        if s.n_violations() != v0 {
+            break;
+        }
+    }
+}
+
+fn c02_check_once(s: &mut Sink, c: &MemCase, l: &Layout, a: &Arena, first: bool) {
     let Some(prog) = program(c, a.pkt.addr()) else { return };
     let bytes = isa::enc(&prog);
     let regs = regions(l, a);
     let exp = classify(c.t, c.w as u64, &regs);
-    s.count("evaluations", 1);
-    s.count("states", 1);
-    s.count("transitions", 1);
+    if first {
+        s.count("evaluations", 1);
+        s.count("states", 1);
+        s.count("transitions", 1);
+    } else {
+        s.count("repetitions_on_fresh_vm_objects", 1);
+    }
     if exp == Expect::Unclear {
         s.outcome("unclear(straddles-two-adjacent-regions)", 1);
         return;
@@ -324,7 +398,7 @@ pub fn c02_check(s: &mut Sink, c: &MemCase, l: &Layout, a: &Arena) {
     let before = a.snapshot();
     let rp = || case_json(c, l, Eng::Interp, a);
     let r = catch(|| {
-        let mut vm = AnyVm::new(l.kind, Some(&bytes)).map_err(|e| format!("load: {e}"))?;
+        let mut vm = make_vm(l.kind, &bytes, c.r10_shift != 0)?;
         for (_, st, en) in regs.iter().filter(|r| r.0 == "allowed") {
             vm.register_allowed_memory(*st..*en);
         }
@@ -337,7 +411,7 @@ pub fn c02_check(s: &mut Sink, c: &MemCase, l: &Layout, a: &Arena) {
         Target::Stack(d) => (-520..=8).contains(&d),
         Target::Abs(ea) => regs.iter().any(|(_, st, en)| (ea.wrapping_sub(*st) as i64).unsigned_abs() <= 9 || (ea.wrapping_sub(*en) as i64).unsigned_abs() <= 9),
     };
-    if near {
+    if near && first {
         s.count("distinct_nontrivial", 1);
     }
     let class = format!("{}@{}", acc_name(c), where_class(c, l, a));
@@ -478,7 +552,7 @@ pub fn c11_check(s: &mut Sink, c: &MemCase, l: &Layout, a: &Arena) {
     let rp = || case_json(c, l, Eng::Cl, a);
     let class = format!("{}@{}", acc_name(c), where_class(c, l, a));
     let compiled = catch(|| {
-        let mut vm = AnyVm::new(l.kind, Some(&bytes)).map_err(|e| format!("load: {e}"))?;
+        let mut vm = make_vm(l.kind, &bytes, c.r10_shift != 0)?;
         vm.compile(Eng::Cl)?;
         Ok::<_, String>(vm)
     });
@@ -564,11 +638,16 @@ fn layouts(thorough: bool, with_allowed: bool) -> Vec<Layout> {
     let als: Vec<Vec<(usize, usize)>> = if !with_allowed {
         vec![vec![]]
     } else if thorough {
-        vec![vec![], vec![(64, 16)], vec![(64, 16), (80, 16)], vec![(32, 8), (128, 24)], vec![(248, 8)], vec![(100, 3)], vec![(64, 8), (76, 8)], vec![(64, 8), (73, 8)], vec![(64, 12)]]
+        vec![vec![], vec![(64, 16)], vec![(64, 16), (80, 16)], vec![(32, 8), (128, 24)], vec![(248, 8)], vec![(100, 3)], vec![(64, 8), (76, 8)], vec![(64, 8), (73, 8)], vec![(64, 12)],
+             vec![(64, 32), (64, 4), (72, 4)], vec![(64, 16), (72, 16)], vec![(64, 8), (64, 16), (64, 24), (64, 32)]]
     } else {
         // adjacent ranges; a range at the very end of its buffer; two ranges 4 bytes and 1 byte apart; a 12-byte range
-        vec![vec![], vec![(64, 16), (80, 16)], vec![(248, 8)], vec![(64, 8), (76, 8)], vec![(64, 8), (73, 8)], vec![(64, 12)]]
+        vec![vec![], vec![(64, 16), (80, 16)], vec![(248, 8)], vec![(64, 8), (76, 8)], vec![(64, 8), (73, 8)], vec![(64, 12)],
+             // nested ranges (a whole value plus two of its fields) and overlapping ranges
+             vec![(64, 32), (64, 4), (72, 4)], vec![(64, 16), (72, 16)]]
     };
+    // a packet larger than 64 KiB: offsets and immediates beyond the 15/16-bit boundaries
+    v.push(Layout { kind: VmKind::Raw, pkt_len: BIG_PKT, mb_len: 0, allowed: vec![] });
     for &p in pk {
         for &m in mbs {
             for al in &als {
@@ -594,6 +673,14 @@ fn targets(l: &Layout, a: &Arena, allowed_too: bool) -> Vec<Target> {
             v.push(Target::Abs(en.wrapping_add(k as u64)));
         }
         v.push(Target::Abs(st.wrapping_add(1 << 63)));
+        // inside a large region: around the 2^15 and 2^16 marks
+        for mid in [0x8000u64, 0x10000] {
+            if en - st > mid + 16 {
+                for k in -9i64..=8 {
+                    v.push(Target::Abs(st.wrapping_add(mid).wrapping_add(k as u64)));
+                }
+            }
+        }
     }
     for k in [0u64, 1, 7, 8] {
         v.push(Target::Abs(k));
@@ -672,10 +759,19 @@ pub fn run(s: &mut Sink, cranelift: bool) {
                         if base == 7 && !(thorough || off == 0) {
                             continue;
                         }
+                        if l.pkt_len == BIG_PKT && !matches!(acc, Acc::Ldx | Acc::LdAbs | Acc::LdInd | Acc::Stx) {
+                            continue;
+                        }
                         if matches!(acc, Acc::LdAbs) && (off != 0 || base != 6) {
                             continue;
                         }
-                        let c = MemCase { acc: *acc, w: *w, t: *t, off, base, pre_narrow: false };
+                        let c = MemCase { acc: *acc, w: *w, t: *t, off, base, pre_narrow: false, pre_store: None, r10_shift: 0 };
+                        if matches!(t, Target::Stack(_)) && off == 0 && base == 6 && !matches!(acc, Acc::LdAbs | Acc::LdInd) {
+                            for sh in [256, -256, 8] {
+                                let c3 = MemCase { r10_shift: sh, ..c };
+                                if cranelift { c11_check(s, &c3, l, &a) } else { c02_check(s, &c3, l, &a) }
+                            }
+                        }
                         let rp = case_json(&c, l, if cranelift { Eng::Cl } else { Eng::Interp }, &a);
                         if cranelift {
                             c11_check(s, &c, l, &a);
@@ -691,6 +787,23 @@ pub fn run(s: &mut Sink, cranelift: bool) {
                         } else {
                             s.mark(idx, &format!("interp/{}@{}", acc_name(&c), where_class(&c, l, &a)), &rp);
                             c02_check(s, &c, l, &a);
+                            // the same access right after a narrower one of the same kind at the same
+                            // address (when that byte is inside a region)
+                            if *w > 1 && (base == 6 || thorough) {
+                                let regs = regions(l, &a);
+                                if classify(*t, 1, &regs) == Expect::Inside {
+                                    match acc {
+                                        Acc::Ldx | Acc::LdAbs | Acc::LdInd => c02_check(s, &MemCase { pre_narrow: true, ..c }, l, &a),
+                                        _ => {
+                                            c02_check(s, &MemCase { pre_narrow: true, ..c }, l, &a);
+                                            a.init();
+                                            if let Some(v) = first_byte(&c, &a) {
+                                                c02_check(s, &MemCase { pre_store: Some(v), ..c }, l, &a);
+                                            }
+                                        }
+                                    }
+                                }
+                            }
                         }
                         s.sample(&format!("{:?}", acc), || rp);
                     }
@@ -718,7 +831,7 @@ pub fn replay(v: &Value) -> Vec<String> {
         "LdAbs" => Acc::LdAbs,
         _ => Acc::LdInd,
     };
-    let c = MemCase { acc, w: v["w"].as_u64().unwrap() as u8, t: target_from_json(v, &a), off: v["off"].as_i64().unwrap() as i16, base: v["base"].as_u64().unwrap() as u8, pre_narrow: v["pre_narrow"].as_bool().unwrap_or(false) };
+    let c = MemCase { acc, w: v["w"].as_u64().unwrap() as u8, t: target_from_json(v, &a), off: v["off"].as_i64().unwrap() as i16, base: v["base"].as_u64().unwrap() as u8, pre_narrow: v["pre_narrow"].as_bool().unwrap_or(false), pre_store: v["pre_store"].as_u64().map(|x| x as u8), r10_shift: v["r10_shift"].as_i64().unwrap_or(0) as i32 };
     let mut s = Sink::new("replay", Tier::Quick, 0, 1, None, None, 3600);
     if v["eng"] == "cranelift" {
         c11_check(&mut s, &c, &l, &a);
